@@ -87,6 +87,53 @@ theorem reclamped_value_in_new_range (cfg' : Config) (hb : boundsOk cfg' = true)
     (∀ x : F64, x.isFinite = true → inRange cfg' (.float (clampFloat cfg' x)) = true ∧ (clampFloat cfg' x).isFinite = true) :=
   ⟨fun i => clampInt_good cfg' hb i, fun x hx => clampFloat_good cfg' hb x hx⟩
 
+/-- Every value a characteristic ever stores is the one it was constructed with or what `convert` + clamp made of a
+    supplied value — for EVERY configuration (no hypothesis on the format or the bounds) and every operation sequence.
+    Nothing else writes the value. -/
+theorem stored_values_are_converted (cfg : Config) (ops : List Op) :
+    ∀ so ∈ trace (start cfg) ops, Produced cfg so.1.char.value := fun so hso =>
+  (trace_invP cfg ops (start cfg) (start_invP cfg) so hso).val
+
+/-- "…has the type its format declares": a uint8 characteristic holds 0..255, uint16 0..65535, uint32 0..2^32-1, int32
+    -2^31..2^31-1, uint64 0..2^63-1 (what an int holds) — whatever is supplied (also -1, 300, 1e30, "18446744073709551615",
+    NaN) and whatever operations follow each other, provided the declared integer bounds lie within that range themselves
+    (`boundsInFormat`; every constructor of the catalog: `catalog_bounds_in_format`). F53 repair. -/
+theorem value_within_format (cfg : Config) (hbf : boundsInFormat cfg = true) (ops : List Op) :
+    ∀ so ∈ trace (start cfg) ops, inFormat cfg so.1.char.value = true := by
+  intro so hso
+  rcases stored_values_are_converted cfg ops so hso with h | ⟨w, hw⟩
+  · rw [h]; rfl
+  · unfold boundsInFormat at hbf
+    unfold convertClamp at hw
+    cases hfm : cfg.format <;> simp only [hfm, convert] at hw hbf
+    case float => split at hw <;> (try split at hw) <;> simp at hw <;> rw [← hw] <;> rfl
+    case bool => simp at hw; rw [← hw]; rfl
+    case string => simp at hw; rw [← hw]; rfl
+    case tlv8 => simp at hw; rw [← hw]; rfl
+    case data => simp at hw; rw [← hw]; rfl
+    case other => simp at hw; rw [← hw]; simp [inFormat, hfm, Format.range]; cases w <;> rfl
+    all_goals
+      simp only [Option.some.injEq] at hw
+      rw [← hw]
+      simp only [Format.range, Bool.and_eq_true] at hbf
+      simp only [inFormat, hfm, Format.range, Bool.and_eq_true, decide_eq_true_eq]
+      refine clampSat_range cfg _ _ (by decide) w (fun mn h => ?_) (fun mx h => ?_)
+      · have := hbf.1; simp [h] at this; exact this
+      · have := hbf.2; simp [h] at this; exact this
+
+/-- the hypothesis of `value_within_format` holds for every constructor of package characteristic, and the value each
+    constructor leaves behind is within the range of its format (table regenerated from the tree on every run) -/
+theorem catalog_bounds_in_format :
+    ctorTable.all (fun r => boundsInFormat r.cfg && inFormat r.cfg r.initial) = true := by
+  decide +kernel
+
+/-- before F53: a controller writes 300 (or -1) to a uint8 characteristic without declared bounds and that is what it
+    holds; with the repair 255 (or 0) -/
+theorem value_within_format_unfixed_refuted :
+    convertOld .uint8 (.float (.fin false 300 0)) = .int 300 ∧ convertOld .uint8 (.float (.fin true 1 0)) = .int (-1) ∧
+    convert .uint8 (.float (.fin false 300 0)) = .int 255 ∧ convert .uint8 (.float (.fin true 1 0)) = .int 0 :=
+  ⟨rfl, rfl, rfl, rfl⟩
+
 -- non-vacuity: instances of the hypotheses, and what fails without them ---------------------------------
 
 /-- The comparison of the stored with the new value never panics, whatever the two dynamic values are (also slices and
